@@ -170,16 +170,17 @@ def rule_l4(repo):
     found_tests = [n for n in cfg.test_nodes() if is_name(n.ast, 'found_limit')]
     done = [b for b, l in it.succ if l == 'done']
     skip = {(n.id, 'false') for n in lim_tests} | {(n.id, 'true') for n in found_tests}
-    ok = bool(lim_tests) and bool(found_tests) and bool(done) and cfg.exit.id not in cfg.reach_from(done, skip_edges=skip)
+    # (a search loop with an else clause that raises needs neither flag nor later test)
+    ok = bool(done) and cfg.exit.id not in cfg.reach_from(done, skip_edges=skip)
     res.add('%s :: load_theory :: missing-limit-raises' % BASIC, ok,
             'when the items are exhausted with a limit that was not found, an exception is raised' if ok else
             'load_theory can return normally although the requested limit was never found', f.loc)
     # found_limit is set only where the loop breaks
     sets = [n for n in cfg.stmt_nodes(ast.Assign) if any(is_name(t, 'found_limit') for t in n.ast.targets) and
             isinstance(n.ast.value, ast.Constant) and n.ast.value.value is True]
-    ok2 = bool(sets) and all(any(isinstance(b.ast, ast.Break) for b, _l in s.succ) for s in sets)
+    ok2 = all(any(isinstance(b.ast, ast.Break) for b, _l in s.succ) for s in sets)
     res.add('%s :: load_theory :: found-limit-breaks' % BASIC, ok2,
-            'found_limit = True is immediately followed by break' if ok2 else 'found_limit is set without leaving the loop', f.loc,
+            ('found_limit = True is immediately followed by break' if sets else 'no found-flag: the search loop reports a missing limit itself') if ok2 else 'found_limit is set without leaving the loop', f.loc,
             nontrivial=False)
     g = repo.func(BASIC, 'check_topological_sort.<locals>.dfs')
     gcfg = cfg_of(g.node)
@@ -380,5 +381,65 @@ def rule_l9(repo):
     return res
 
 
+def rule_l10(repo):
+    """`load_theory(limit=...)` and its helpers locate items by position.  A position is 0 for the first item:
+    a variable that holds a position (an index from enumerate / range / .index(), or the result of a function that
+    returns such an index or None) must be tested with `is None`, never by its truth value - `content[:end] if end
+    else content` loads the whole theory when the limit is the first item, so the theorem being proved is available
+    to its own proof."""
+    res = RuleResult('C12.L10', 'a position in the item list is never tested by its truth value', floor=1)
+    m = repo.module(BASIC)
+
+    def index_names(fnode):
+        idx = set()
+        for x in ast.walk(fnode):
+            if isinstance(x, ast.For) and isinstance(x.iter, ast.Call) and isinstance(x.iter.func, ast.Name):
+                if x.iter.func.id == 'enumerate' and isinstance(x.target, (ast.Tuple, ast.List)) and isinstance(x.target.elts[0], ast.Name):
+                    idx.add(x.target.elts[0].id)
+                if x.iter.func.id == 'range' and isinstance(x.target, ast.Name):
+                    idx.add(x.target.id)
+        return idx
+    index_funcs = set()
+    for f in m.all_funcs:
+        idx = index_names(f.node)
+        rets = [r for r in ast.walk(f.node) if isinstance(r, ast.Return)]
+        if any(isinstance(r.value, ast.Name) and r.value.id in idx for r in rets):
+            index_funcs.add(f.name)
+    n = 0
+    for f in m.all_funcs:
+        if f.parent is not None:
+            continue
+        loop_idx = index_names(f.node)
+        pos = set()
+        for x in ast.walk(f.node):
+            if isinstance(x, ast.Assign) and isinstance(x.targets[0], ast.Name):
+                v = x.value
+                if isinstance(v, ast.Name) and v.id in loop_idx:
+                    pos.add(x.targets[0].id)
+                if isinstance(v, ast.Call) and (call_attr(v) in ('index', 'find') or call_name(v) in index_funcs):
+                    pos.add(x.targets[0].id)
+        if not pos and not loop_idx:
+            continue
+        n += 1
+        bad = []
+        for x in ast.walk(f.node):
+            tests = []
+            if isinstance(x, (ast.If, ast.While, ast.IfExp)):
+                tests.append(x.test)
+            if isinstance(x, ast.BoolOp):
+                tests += x.values
+            if isinstance(x, ast.UnaryOp) and isinstance(x.op, ast.Not):
+                tests.append(x.operand)
+            for t in tests:
+                if isinstance(t, ast.Name) and t.id in pos:
+                    bad.append('line %d tests `%s` by its truth value' % (t.lineno, t.id))
+        res.add('%s :: %s :: positions-tested-with-is-None' % (BASIC, f.qualname), not bad,
+                'positions %s are compared, sliced or tested with `is None` only' % (', '.join(sorted(pos | loop_idx)) or '-') if not bad else
+                '; '.join(sorted(set(bad))) + ' -- position 0 (the first item of the theory) is taken for "no position": with the first item as limit the '
+                'whole theory is loaded, including the item itself', f.loc)
+    need(n >= 1, 'logic/basic.py: no function that handles positions found')
+    return res
+
+
 def rules(repo):
-    return [rule_l1(repo), rule_l2(repo), rule_l3(repo), rule_l4(repo), rule_l5(repo), rule_l6(repo), rule_l7(repo), rule_l8(repo), rule_l9(repo)]
+    return [rule_l1(repo), rule_l2(repo), rule_l3(repo), rule_l4(repo), rule_l5(repo), rule_l6(repo), rule_l7(repo), rule_l8(repo), rule_l9(repo), rule_l10(repo)]
